@@ -92,7 +92,7 @@ func outParam(t types.Type) bool {
 
 func checkC12(w *World, c *Check, tier string) {
 	c.Exhaustive = true
-	c.Explanation = "Decides purity by write-effect summaries computed bottom-up over the whole package (stores, map updates, append — which may write its first argument's spare capacity —, copy, calls mapped through actual arguments, interface calls resolved over the package's implementers, callbacks resolved where the actual is a closure): every read-only operation the property names (all MarshalJSON/MarshalText/MarshalBinary/GobEncode, Equals/Contains/ItemsMatch, Format/String, the getters and predicates, IsNil/NotEmpty/DerefItem, the To*/On* view helpers themselves, ItemsEqual, ItemOrderTimestamp; found by name family and signature) may write only memory it allocated itself or its designated output (an out-buffer, io.Writer or fmt.State parameter) — never memory reachable from its receiver or arguments, and never a package-level variable; decode entry points may write their receiver but no package-level variable either (each allocates its own parser). Functions that only read shared memory cannot race with each other, so race-freedom of concurrent read-only use follows. NOT decided: writes inside dependencies beyond the reviewed summary table (listed in the evidence), aliasing created by storing a parameter-derived pointer into a local through a callee."
+	c.Explanation = "Decides purity by write-effect summaries computed bottom-up over the whole package (stores, map updates, append — which may write its first argument's spare capacity —, copy, calls mapped through actual arguments, interface calls resolved over the package's implementers, callbacks resolved where the actual is a closure): every read-only operation the property names (all MarshalJSON/MarshalText/MarshalBinary/GobEncode, Equals/Contains/ItemsMatch, Format/String, the getters and predicates, IsNil/NotEmpty/DerefItem, the To*/On* view helpers themselves, ItemsEqual, ItemOrderTimestamp; found by name family and signature) may write only memory it allocated itself or its designated output (an out-buffer, io.Writer or fmt.State parameter) — never memory reachable from its receiver or arguments, and never a package-level variable; decode entry points may write their receiver but no package-level variable either (each allocates its own parser). Functions that only read shared memory cannot race with each other, so race-freedom of concurrent read-only use follows. NOT decided: writes inside dependencies beyond the reviewed summary table (listed in the evidence), aliasing created by storing a parameter-derived pointer into a local through a callee. ADDED: a cell captured by a closure and assigned there from the closure's parameters (items = col.Collection() inside an On* callback) is treated as aliasing the enclosing function's arguments."
 	c.RuleText = "one obligation per read-only root (write set must be empty) and per decode entry (no package-level write); exhaustive over the method families"
 	c.Trusted = []string{"go/ssa", "apcheck effects.go", "the reviewed dependency summaries in extTable / extPurePrefixes"}
 	c.floor("C12.pure", 150)
